@@ -26,6 +26,12 @@ def run(tier, seed):
         res, n = mc.generate("thorough", mc.THOROUGH, scen, commit_every=4, scale_every=50)
     out = vlib.replay("merge", scen, timeout=120)
     vlib.absorb_replay(v, out, "merge", scen, crash_sig=lambda sc, t: "merge/crash")
+    # tables without a primary key: every pair (and a family of triples) of row sets over a two-row base
+    kscen = os.path.join(vlib.sub("scn"), "mergekeyless.ndjson")
+    kres = vlib.run_tlc("MergeKeylessGen", "MergeKeylessGen.cfg", workers=2, scn_out=kscen, timeout=300)
+    vlib.require_ok(kres, "MergeKeylessGen")
+    kout = vlib.replay("mergekeyless", kscen, nshards=4, timeout=120)
+    vlib.absorb_replay(v, kout, "mergekeyless", kscen, crash_sig=lambda sc, t: "merge/keyless/crash")
     cov = {
         "states": res.distinct, "transitions": res.generated,
         "traces_validated_against_impl": out.passed,
@@ -35,6 +41,8 @@ def run(tier, seed):
                 "construction); non-trivial = the pair involves a column change, a conflict, a key column that is not first "
                 "or multi-block tables (class label of the scenario)",
         "classes": out.classes,
+        "keyless": {"scenarios": kout.total, "passed": kout.passed, "tlc_states": kres.distinct,
+                    "rule": "every ordered pair x 4 third branches of subsets of 4 rows over the base {1,2}, expected = Merge!KeylessResult"},
         "samples": vlib.samples_from(scen, 3),
         "exhaustive": True,
         "tlc": {"module": "MergeGen", "generated": res.generated, "distinct": res.distinct, "wall_s": round(res.wall, 1),
@@ -44,7 +52,7 @@ def run(tier, seed):
         "the interactive merge UI is not driven: conflicts are dropped (resolution nil) and the remaining rows judged",
         "where a row-level change meets a column-level change the statement is ambiguous: both the cell-wise outcome and a reported conflict are accepted (Merge!AmbiguousKeys)",
         "column order is not part of a version; added-column positions are free",
-        "N = 2 branches; N = 3 and keyless tables are covered by the extension families when present",
+        "N = 2 branches in the keyed universe; keyless tables: N = 2 and N = 3 over 4 abstract rows (MergeKeylessGen)",
     ])
 
 
@@ -54,7 +62,8 @@ def replay(path):
     scen = os.path.join(vlib.sub("scn"), "one.ndjson")
     with open(scen, "w") as f:
         f.write(json.dumps(doc["scenario"]) + "\n")
-    out = vlib.replay("merge", scen, nshards=1, timeout=120)
+    eng = "mergekeyless" if doc["scenario"].get("keyless") else "merge"
+    out = vlib.replay(eng, scen, nshards=1, timeout=120)
     if out.errors:
         raise vlib.Inconclusive(str(out.errors))
     if out.failures or out.crashes or out.timeouts:
